@@ -50,8 +50,13 @@ NumPacked(s)   == Cardinality(Packed(s))
 PackedWeight(s) == SumFn(s.weights, Packed(s))
 PackedValue(s)  == SumFn(s.values, Packed(s))
 
-Fits(s, j)  == s.weights[j] <= s.remaining_budget                       \* "weight not larger than the bag capacity"
-Tie(s, j)   == ~Cfg.exact /\ Abs(s.remaining_budget - s.weights[j]) <= TieTol
+(* A recorded state may carry `fits`: the float32 comparisons weight <= remaining_budget themselves, computed by the
+   harness's projection from the state's own arrays (a pure function of the state).  Where they are present the rule is
+   decided on them - exactly, down to one unit in the last place - and nothing is left undecided. *)
+HasFits(s)  == "fits" \in DOMAIN s
+Fits(s, j)  == IF HasFits(s) THEN s.fits[j]
+               ELSE s.weights[j] <= s.remaining_budget                  \* "weight not larger than the bag capacity"
+Tie(s, j)   == ~Cfg.exact /\ ~HasFits(s) /\ Abs(s.remaining_budget - s.weights[j]) <= TieTol
 Legal(s, a) == ~s.packed_items[a + 1] /\ Fits(s, a + 1)                 \* the rule, on the numbers as given
 (* What the recorded numbers allow us to conclude about the real (float32) comparison: *)
 LegalForSure(s, a)   == ~s.packed_items[a + 1] /\ Fits(s, a + 1) /\ ~Tie(s, a + 1)
